@@ -20,6 +20,9 @@ def gen(x):
                      r"header\.position\s*=\s*0;\s*header\.start\s*=\s*0;", add), "mdsdrv.cpp:add_song extracts the playback window of a pcmh entry")
     m = x.need(re.search(r'group_str\s*=\s*"(\w+)"', add), "mdsdrv.cpp:add_song default group")
     w.append("def link_defaultGroup : List Nat := [%s]  -- \"%s\"" % (", ".join(str(b) for b in m.group(1).encode()), m.group(1)))
+    # the model indexes the sample headers with the full result of add_sample (fix 8769e2a: no uint16_t in between)
+    x.need(re.search(r"unsigned int\s+(\w+)\s*=\s*wave_rom\.add_sample\(.*?get_sample_headers\(\)\.at\(\1\)", add, flags=re.S),
+           "mdsdrv.cpp:add_song sample index kept in an unsigned int")
     m = x.need(re.search(r"std::vector<uint8_t> MDSDRV_Linker::get_seq_data\(\).*?\n\}\n", md, flags=re.S), "mdsdrv.cpp:get_seq_data")
     gs = m.group(0)
     m = x.need(re.search(r"header_size\s*=\s*(\d+)\s*\+\s*get_seq_count\(\)\s*\*\s*(\d+)", gs), "mdsdrv.cpp:get_seq_data header size")
